@@ -38,6 +38,8 @@ def make_use(rng, labs, pess, here_pess):
         a, b = b, a
     forms.append({'diff': [a, b]})
     forms.append({'off': L})
+    # a base that itself names labels (`%position(func, RAM_BASE - ramcode)`: code that runs from another address than it is stored at)
+    forms.append({'pos': [L, rng.choice([{'diff': [a, b]}, {'sum': [{'diff': [a, b]}, base]}, {'lab': a}, {'sum': [{'lab': b}, base]}])]})
     e = rng.choice(forms)
     k = rng.randrange(9)
     if k == 0:
@@ -212,7 +214,7 @@ def run_case(asm, acc, case):
             if progcheck.is_transfer(it):
                 continue      # control transfers are C03's
             acc['n'] += 1
-            rl = refs(ops)
+            rl = [l for l in refs(ops) if l in ex.labels_true]      # (a name may be a constant: `%offset(TABS)`)
             moved = any(ex.labels_true[l] != pess.get(l, ex.labels_true[l]) for l in rl)
             moved_any |= moved
             if moved:
@@ -223,7 +225,7 @@ def run_case(asm, acc, case):
             for p in probs:
                 core.add_viol(acc, '`%s` at offset %d (compress=%s, labels %s): %s' % (
                     ex.lines[idx], st, compress, {l: ex.labels_true[l] for l in rl}, p), rcase, {'bytes': data.hex(), 'line': idx + 1},
-                    key=classify(it, info))
+                    key=classify_item(it, info))
         acc['ctr']['programs_with_moved_label' if moved_any else 'programs_without_moved_label'] += 1
     if case['idx'] % 97 == 0:
         core.add_sample(acc, {'program': P.render(items)[:14]})
@@ -245,7 +247,7 @@ def has_key(o, key):
     return key in flat_keys(o)
 
 
-def classify(it, info):
+def classify_item(it, info):
     """mechanism classifiers for KNOWN_FINDINGS.txt (never case hashes)"""
     if it['k'] == 'pseudo' and it['m'] == 'li' and has_key(it['ops'][1], 'off') and info.get('n_insns') == 2:
         # `li rd, <expr containing %offset(L)>`: when li needs two instructions the addi evaluates %offset at its own
